@@ -228,7 +228,9 @@ def run(chk):
         chk.touched(ss)
         rows = normal.rows(S, ss, N, expand=False)
         # the table in normal form: which stored entry feeds the salts, and under which presence tests
-        is_find = lambda x: is_call(x, "Iterator::find") and has(x[2][0], lambda y: y == ("field", ("param", 2), "eval_by_credential"))
+        is_ebc_t = lambda y: y == ("field", ("param", 2), "eval_by_credential")
+        # the matching entry: found by Iterator::find over the per-credential map, or yielded by next() of a loop over it
+        is_find = lambda x: (is_call(x, "Iterator::find") and has(x[2][0], is_ebc_t)) or (is_call(x, "Iterator::next") and has(flow.iterator_source(x[2][0]) or (), is_ebc_t))
         is_eval = lambda x: x == ("field", ("param", 2), "eval")
         is_ebc = lambda x: x == ("field", ("param", 2), "eval_by_credential")
         somes = [o for o in rows if o.variant[:1] == ("Some",)]
@@ -238,8 +240,12 @@ def run(chk):
         ok1 = bool(per_cred)
         for o in per_cred:
             fnd = find(o.value, is_find)
-            pred = closure_ret(p, fnd[2][1]) if fnd else None
-            okp = pred is not None and has(pred, lambda x: is_call(x, "PartialEq::eq")) and has(pred, lambda x: x == ("param", 1))
+            if fnd is not None and is_call(fnd, "Iterator::find"):
+                pred = closure_ret(p, fnd[2][1])
+                okp = pred is not None and has(pred, lambda x: is_call(x, "PartialEq::eq")) and has(pred, lambda x: x == ("param", 1))
+            else:
+                # loop form: the row is taken on the true edge of `credential id == key of the yielded entry`
+                okp = fnd is not None and any((flow.eq_test(t, l) or (None, None))[1] is True and ("param", 1) in flow.eq_test(t, l)[0] and any(has(y, lambda z: z == fnd) for y in flow.eq_test(t, l)[0]) for t, l, f, w in o.conds)
             matched = any(flow.asserts_ok(t, l, is_find) for t, l, f, w in o.conds)
             ok1 = ok1 and okp and matched and not has(o.value, is_eval)
         # the default entry is used only when no per-credential entry matched (map absent, or no key equals the id) and exists
@@ -345,11 +351,11 @@ def run(chk):
     mh = p.method(AUTH, "make_hmac_secret")
     if chk.require("R5 enabled", "R5|make_hmac_secret", mh, AUTH, "make_hmac_secret not found"):
         chk.touched(mh)
-        rows = S.local_outcomes(mh)
+        rows = normal.rows(S, mh, N, expand=False, deep=True)
         somes = [o for o in rows if o.variant[:1] == ("Some",)]
-        ok = bool(somes) and all(any(has(t, lambda x: x == ("field", ("field", ("param", 1), "extensions"), "hmac_secret")) and (l == ("in", "0") or l == ("in", "1")) for t, l, f, w in o.conds) for o in somes)
-        # Some rows require the configuration to be present (Continue edge of `?` on the config)
-        ok = ok and all(any(t[0] == "discr" and t[1][0] == "try" and has(t, lambda x: x == ("field", ("field", ("param", 1), "extensions"), "hmac_secret")) and l == ("in", "0") for t, l, f, w in o.conds) for o in somes)
+        # rows that produce stored secrets require the configured capability to be present
+        is_cfg = lambda x: x == ("field", ("field", ("param", 1), "extensions"), "hmac_secret")
+        ok = bool(somes) and all(any(flow.asserts_ok(t, l, is_cfg) for t, l, f, w in o.conds) for o in somes)
         chk.ob("R5 enabled", "R5|make_hmac_secret|nothing-stored-without-capability", ok, where(mh), "secrets are generated only past the configured-capability check: %s" % ok)
     if gp is not None:
         rows = S.local_outcomes(gp)
